@@ -1991,6 +1991,10 @@ class Parallel(Logger):
         # callback.
         with self._lock:
             self._call_id = uuid4().hex
+            # Batches that were sliced ahead by a previous call but never
+            # dispatched (the call was aborted or its output generator was
+            # closed early) must not be run as part of this call.
+            self._ready_batches = queue.Queue()
 
         # self._effective_n_jobs should be called in the Parallel.__call__
         # thread only -- store its value in an attribute for further queries.
